@@ -1,7 +1,8 @@
 """C11 cube root: PROV-CTX, R-SIGN (rounding data carries the sign; re-signed with the same value),
 lazy-flag table cross-check, R-STICKY."""
 from props import roots
-from rules import signsticky as S, tablerules as TR
+from rules import signsticky as S, tablerules as TR, scale
+from props import exact
 
 
 def run(ctx):
@@ -9,7 +10,7 @@ def run(ctx):
     rep.explanation = ('Static MIR analysis. PROV-CTX: cbrt_with_context -> impl_cbrt_int_scale -> impl_cbrt_uint_scale hand on ctx.precision and '
                        'ctx.rounding, and the final rounding (InsigData) receives the rounding data unchanged. R-SIGN: the rounding data is built with '
                        'n.sign() and the result is re-signed with that very value. R-TABLE: needs_trailing_zeros (the lazily evaluated tail flag) is '
-                       'consistent with round_pair. R-STICKY: radicand consulted again after nth_root. NOT decided: the digits of the root.')
+                       'consistent with round_pair. R-STICKY: radicand consulted again after nth_root. R-SCALE (dimension bookkeeping): on every path of impl_cbrt_uint_scale - all three residues of the scale mod 3, with and without padding - the dimension of nth_root(n*10^shift, 3) minus the trimmed digits equals the scale of the constructed result (linear arithmetic over the div_rem fact shifted = 3q + r). NOT decided: the digits of the root.')
     F = ctx.facts('default', 'rel')
     fns = roots.family(F, r'cbrt')
     rep.entries['cbrt family'] = [f.key for f in fns]
@@ -18,6 +19,19 @@ def run(ctx):
     cells, table = TR.round_pair_table(rep, F)
     n3 = TR.needs_tz_crosscheck(rep, F, table)
     n4 = S.sticky(rep, F, fns)
+    # scale bookkeeping of the root routine: for every residue of the scale mod 3 the returned integer's
+    # dimension (radicand dimension / 3, minus the trimmed digits) equals the scale it is labelled with
+    exact.prepare(F)
+    for f in fns:
+        if f.name.split('::')[-1] == 'impl_cbrt_uint_scale':
+            v, msgs, paths = scale.analyse(f, 'dims', scale_params=(2,))
+            key = f.key + ':scale-bookkeeping'
+            if v == 'ok':
+                rep.ok('R-SCALE', key, 'all %d paths (scale residues 0, 1, 2 mod 3; with and without zero padding): dim(nth_root(n*10^shift, 3)) - trimmed digits = the result\'s scale' % paths, f.where())
+            elif v == 'violation':
+                rep.violation('R-SCALE', key, msgs[0][:500], f.where())
+            else:
+                rep.undecided('R-SCALE', key, msgs[0][:200], f.where())
     S.radicand_exact(rep, F, fns)
     rep.floor('PROV-CTX final sinks', n1, 3)
     rep.floor('R-SIGN instances', n2, 2)
